@@ -46,9 +46,9 @@ func (p *propC12) Prepare(seed uint64, tier string) int {
 			}
 		}
 	}
-	p.count = 150000
+	p.count = 300000
 	if isThorough(tier) {
-		p.count = 4000000
+		p.count = 3000000
 	}
 	return p.count
 }
